@@ -83,7 +83,23 @@ package larking
 //@ spec Buffered(b, r, g) = g + len(b) == rdpos(r)
 //@      && (forall x :: off(b) <= x && x < off(b) + len(b) ==> raw(b)[x] == rdS(r)[x - off(b) + g])
 
+// Interface contract of StreamCodec.ReadNext: what streamHTTP.readMsg may rely on
+// whatever codec is plugged in. Every implementation in the package refines it.
+//@ iface (StreamCodec).ReadNext
+//@   params (recv, b, r, limit)
+//@   returns (dst, n, err)
+//@   ghost g0 = rdpos(r) - len(b)
+//@   requires r != nil && Buffered(b, r, g0) && limit > 0
+//@   modifies E$uint8, G$rd.pos
+//@   ensures [bounds] 0 <= n && n <= len(dst)
+//@   ensures [limit] n <= limit
+//@   ensures [window] err == nil || err == io.EOF ==> 0 <= Hdr(dst, r, g0) && Buffered(dst, r, g0 + Hdr(dst, r, g0))
+//@   ensures [err-nomsg] err != nil && err != io.EOF ==> n == 0
+//@   ensures [backing] base(dst) == base(b) || isfresh(dst)
+
 //@ func (codecHTTPBody).ReadNext serves C17 C06 C08 C09
+//@   refines (StreamCodec).ReadNext
+//@   modifies E$uint8, G$rd.pos
 //@   returns (dst, n, err)
 //@   ghost g0 = rdpos(r) - len(b)
 //@   requires r != nil && Buffered(b, r, g0)
@@ -95,7 +111,7 @@ package larking
 //@   ensures [eof-all] err == io.EOF ==> n == len(dst)
 //@   ensures [err-nomsg] err != nil && err != io.EOF ==> n == 0
 //@   oracle err != io.EOF || n == len(dst)
-//@   loop 1 invariant Buffered(b, r, g0)
+//@   loop 1 invariant Buffered(b, r, g0) && (base(b) == base(old(b)) || isfresh(b))
 //@   loop 1 decreases limit - len(b) assuming ReaderProgress
 
 // A well-formed varint of h bytes starts at stream coordinate g.
@@ -105,6 +121,8 @@ package larking
 //@ spec Hdr(dst, r, g) = rdpos(r) - len(dst) - g
 
 //@ func (CodecProto).ReadNext serves C17 C06 C08 C09
+//@   refines (StreamCodec).ReadNext
+//@   modifies E$uint8, G$rd.pos
 //@   returns (dst, n, err)
 //@   ghost g0 = rdpos(r) - len(b)
 //@   requires r != nil && Buffered(b, r, g0)
@@ -121,10 +139,10 @@ package larking
 //@   assert at "if n < 0 {" [varint] n#2 >= 0 ==> VarintAt(rdS(r), g0, n#2) && size == VarintVal(rdS(r)[g0:], n#2) && n#2 <= len(b)
 //@   assert at "if len(b) < n {" [after-header] Buffered(b, r, g0 + hv)
 //@   assert at "if _, err := io.ReadFull(r, b[len(b):n]); err != nil {" [before-fill] Buffered(b, r, g0 + hv) && len(b) < n#2 && n#2 <= cap(b)
-//@   loop 1 invariant 0 <= i && i <= 10 && Buffered(b, r, g0)
+//@   loop 1 invariant 0 <= i && i <= 10 && Buffered(b, r, g0) && (base(b) == base(old(b)) || isfresh(b))
 //@   loop 1 invariant forall j :: 0 <= j && j < i ==> j < len(b) && b[j] >= 128
 //@   loop 1 decreases 10 - i
-//@   loop 2 invariant 0 <= i && i < 10 && Buffered(b, r, g0)
+//@   loop 2 invariant 0 <= i && i < 10 && Buffered(b, r, g0) && (base(b) == base(old(b)) || isfresh(b))
 //@   loop 2 invariant forall j :: 0 <= j && j < i ==> j < len(b) && b[j] >= 128
 //@   loop 2 decreases i + 1 - len(b) assuming ReaderProgress
 
@@ -138,6 +156,8 @@ package larking
 //@ spec JScan(S, g, i, braceCount, isString, isEscaped) = braceCount == JDep(S, g, i) && (isString <==> JStr(S, g, i)) && (isEscaped <==> JEsc(S, g, i))
 
 //@ func (CodecJSON).ReadNext serves C17 C06 C08 C09
+//@   refines (StreamCodec).ReadNext
+//@   modifies E$uint8, G$rd.pos
 //@   returns (dst, n, err)
 //@   ghost g0 = rdpos(r) - len(b)
 //@   requires r != nil && Buffered(b, r, g0)
@@ -150,10 +170,10 @@ package larking
 //@   ensures [too-large-only-at-limit] errtype(err, "*protodelim.SizeTooLargeError") ==> len(dst) >= limit
 //@   ensures [clean-eof] err == io.EOF ==> JDep(rdS(r), g0, len(dst)) == 0
 //@   oracle (n >= 0 && n <= len(dst)) && (err != io.EOF || verifJSONDepth(dst) == 0)
-//@   loop 1 invariant 0 <= i && i <= limit && i <= len(b) && Buffered(b, r, g0)
+//@   loop 1 invariant 0 <= i && i <= limit && i <= len(b) && Buffered(b, r, g0) && (base(b) == base(old(b)) || isfresh(b))
 //@   loop 1 invariant JScan(rdS(r), g0, i, braceCount, isString, isEscaped) && 0 <= braceCount && braceCount <= i
 //@   loop 1 decreases limit - i
-//@   loop 2 invariant 0 <= i && i < limit && i <= len(b) && Buffered(b, r, g0)
+//@   loop 2 invariant 0 <= i && i < limit && i <= len(b) && Buffered(b, r, g0) && (base(b) == base(old(b)) || isfresh(b))
 //@   loop 2 invariant JScan(rdS(r), g0, i, braceCount, isString, isEscaped) && 0 <= braceCount && braceCount <= i
 //@   loop 2 decreases i + 1 - len(b) assuming ReaderProgress
 
@@ -161,16 +181,19 @@ package larking
 //@ spec Appended(w, b, at) = forall k :: 0 <= k && k < len(b) ==> wrout(w)[at + k] == b[k]
 
 //@ func (CodecJSON).WriteNext serves C17 C06
+//@   modifies G$wr.
 //@   returns (n, err)
 //@   requires w != nil
 //@   ensures [whole] err == nil ==> n == len(b) && wrlen(w) == old(wrlen(w)) + len(b) && Appended(w, b, old(wrlen(w)))
 
 //@ func (codecHTTPBody).WriteNext serves C17 C06
+//@   modifies G$wr.
 //@   returns (n, err)
 //@   requires w != nil
 //@   ensures [whole] err == nil ==> n == len(b) && wrlen(w) == old(wrlen(w)) + len(b) && Appended(w, b, old(wrlen(w)))
 
 //@ func (CodecProto).WriteNext serves C17 C06
+//@   modifies G$wr.
 //@   returns (n, err)
 //@   requires w != nil
 //@   ghost at "if _, err := w.Write(sizeBuf); err != nil {" hv = len(sizeBuf)
@@ -181,6 +204,7 @@ package larking
 // mux.go
 
 //@ func (*muxOptions).readAll serves C08 C06 C09
+//@   modifies E$uint8, G$rd.pos
 //@   returns (dst, err)
 //@   ghost g0 = rdpos(r) - len(b)
 //@   requires o != nil && r != nil && Buffered(b, r, g0)
@@ -192,6 +216,7 @@ package larking
 //@   loop 1 decreases o.maxReceiveMessageSize + 1 - total assuming ReaderProgress
 
 //@ func (*muxOptions).writeAll serves C08 C04
+//@   modifies G$wr.
 //@   returns (err)
 //@   requires o != nil && dst != nil
 //@   deadcode "return io.ErrShortWrite"
@@ -493,3 +518,21 @@ package larking
 //@   modifies F$lexer.pos, F$lexer.width, F$lexer.len, F$lexer.start, E$token
 //@   deadcode "return err #1"
 //@   ensures [inv] LexInv(l)
+
+// ---------------------------------------------------------------------------
+// http.go: the HTTP stream reader. s.rbuf carries the bytes read beyond the
+// last message; Buffered(s.rbuf, s.r, .) is the invariant between calls. b is
+// the pooled message buffer (assumed not to alias s.rbuf: pool exclusivity).
+//@ func (*streamHTTP).readMsg serves C06 C08 C09
+//@   returns (count, msg, err)
+//@   ghost g = rdpos(s.r) - len(s.rbuf)
+//@   requires s != nil && s.method != nil && s.method.desc != nil && s.r != nil && c != nil
+//@   requires Buffered(s.rbuf, s.r, g) && len(b) == 0 && s.opts.maxReceiveMessageSize > 0
+//@   requires cap(b) == 0 || base(b) != base(s.rbuf)
+//@   modifies F$streamHTTP.recvCount, F$streamHTTP.rEOF, F$streamHTTP.rbuf, E$uint8, G$rd.pos
+//@   ensures [latched] old(s.rEOF) ==> err == io.EOF && len(msg) == 0
+//@   ensures [size] err == nil ==> len(msg) <= s.opts.maxReceiveMessageSize
+//@   ensures [no-phantom C06] at "return count, b[:n], err" s.rEOF && !old(s.rEOF) && err == nil ==> len(msg) > 0
+//@   ensures [carry C06] at "return count, b[:n], err" err == nil ==> Buffered(s.rbuf, s.r, rdpos(s.r) - len(s.rbuf))
+//@   ensures [message-window C06] at "return count, b[:n], err" err == nil ==>
+//@        (forall x :: off(msg) <= x && x < off(msg) + len(msg) ==> raw(msg)[x] == rdS(s.r)[x - off(msg) + rdpos(s.r) - len(s.rbuf) - len(msg)])
